@@ -12,6 +12,7 @@ MCUBatches == {<< <<<<3, 3>>, 1>> >>}
 MCWBatches == {<< <<<<3, 3>>, 2>> >>}
 MCOps == {"FromArrays", "Merge", "MergeRefused", "MergeMinFreq", "DropD"}
 MCScaleArgs == {<<2, 1>>}
+MCCellArgs == {}
 MCRetCands == {NoneRet}
 MCProjAxes == {<<1>>}
 MCMergeArgs == {<<a, x>> : a \in 1..5, x \in 0..3}
